@@ -117,11 +117,11 @@ def g_gate(g):
 
 def g_case(c, o):
     pr = lambda e: f"({gz(e[0])}, {gz(e[1])})"
-    paths = [] if o == "ERR" else o["paths"]
+    paths = o["paths"]
     gp = lambda p: f"({gz(p[0])}, {gz(p[1])}, {glist(p[2], gz)})"
     inp = (f"mkCase {glist(c['edges'], pr)} {glist(c['ops'], g_gate)} "
            f"{glist([m[1] for m in c['meas']], lambda m: glist(m, gz))} {glist(c['dev'] or [], gz)} {glist(paths, gp)}")
-    if o == "ERR":
+    if o["err"]:
         return f"({inp}, None)"
     exp = f"Some ({glist(o['ops'], g_gate)}, {glist(o['meas'], lambda m: glist(m, gz))})"
     return f"({inp}, {exp})"
@@ -129,7 +129,7 @@ def g_case(c, o):
 
 def direct_oracle(c, o):
     """clause 1 of the property on the implementation's own output; returns None or a description"""
-    if o == "ERR":
+    if o["err"]:
         return None
     es = {frozenset(e) for e in c["edges"]}
     for name, ws in o["ops"]:
@@ -161,8 +161,18 @@ CORPUS = [
 ]
 
 
+CAP = 25    # replay files written per kind of violation; totals are recorded in the evidence notes
+
+
 def run(ctx):
     ctx.coq_props()
+    nviol = {}
+
+    def report(kind, c, replay, what):
+        nviol[kind] = nviol.get(kind, 0) + 1
+        if nviol[kind] <= CAP:
+            ctx.violation(kind + ":" + json.dumps(c, sort_keys=True), replay, found_input=True, what=what)
+
     rng = ctx.rng
     quick = ctx.tier == "quick"
     n, n_num = (1200, 120) if quick else (8000, 800)
@@ -185,11 +195,11 @@ def run(ctx):
     distinct = set()
     for c, o in zip(cases, obs):
         hist["kinds"][c["kind"]] = hist["kinds"].get(c["kind"], 0) + 1
-        if o == "ERR":
+        if o["err"]:
             hist["err"] += 1
             if not c["kind"].startswith("bad"):
-                ctx.violation("total:" + json.dumps(c, sort_keys=True), {"case": c, "observed": o},
-                              what="transpile raised on a connected coupling map covering the wires")
+                report("total", c, {"case": c, "observed": o},
+                       "transpile raised on a connected coupling map covering the wires")
             continue
         hist["ok"] += 1
         if c["kind"].startswith("bad"):
@@ -208,11 +218,13 @@ def run(ctx):
         hist["meas_remapped"] += [m[1] for m in c["meas"] if m[1]] != [m for m, m0 in zip(o["meas"], c["meas"]) if m0[1]]
         d = direct_oracle(c, o)
         if d:
-            ctx.violation("direct:" + json.dumps(c, sort_keys=True), {"case": c, "observed": o, "violated": d}, what=d)
+            report("direct", c, {"case": c, "observed": o, "violated": d}, d)
     for i in bad:
-        ctx.violation("corr:" + json.dumps(cases[i], sort_keys=True),
-                      {"case": cases[i], "implementation": obs[i], "model": "evaluate coq/Gen/C19/cases_*.v (check_case false)"},
-                      found_input=True, what="implementation differs from the proved model of transpile")
+        report("corr", cases[i],
+               {"case": cases[i], "implementation": obs[i], "model": "evaluate coq/Gen/C19/cases_*.v (check_case false)"},
+               "implementation differs from the proved model of transpile")
+    if nviol:
+        ctx.notes.append(f"violating cases per kind {nviol}; at most {CAP} replays written per kind")
     ctx.coverage.update({"evaluations": len(cases), "distinct_nontrivial": len(distinct),
                          "rule": "seeded generator: 3-6 circuit wires (+0-2 unused graph nodes), randomly relabelled line/ring/star/tree/random connected graphs, 2-16 gates (30% 1-wire, 65% 2-wire, 5% GlobalPhase), 1-3 measurements, device (shuffled wires, wire-less probs) 40%; malformed stream 10% (3-wire gate, wire outside the map, disconnected map); non-trivial = accepted case with at least one routing step",
                          "input_distribution": hist})
